@@ -602,5 +602,5 @@ func TestC09(t *testing.T) {
 	vh.Drive(t, vh.Spec[Case]{Name: "march", Quick: 96, Thorough: 2400, Gen: genCase, Run: runCase})
 	vh.Enumerate(t, vh.Spec[PatternCase]{Name: "cube-configurations", Run: runPattern}, singleCellPatterns())
 	vh.Enumerate(t, vh.Spec[PatternCase]{Name: "cell-pairs", Run: runPattern}, cellPairPatterns())
-	vh.Drive(t, vh.Spec[PatternCase]{Name: "lattice-patterns", Quick: 4000, Thorough: 200000, Gen: genPattern, Run: runPattern})
+	vh.Drive(t, vh.Spec[PatternCase]{Name: "lattice-patterns", Quick: 4000, Thorough: 60000, Gen: genPattern, Run: runPattern})
 }
